@@ -28,6 +28,18 @@ def gen_schema(rng, tmp, keypath):
         # a section that declares nothing (yet): a schema without fields, at the root or inside another section
         holders = [sk] + [sf["schema"] for _, sf in sk["fields"] if sf["s"] == "sub"]
         rng.choice(holders)["fields"].append(["zz_section", {"s": "sub", "schema": {"fields": [], "dynamic": False, "validators": []}}])
+    # keys are case-sensitive identifiers: some carry upper-case letters (sections and fields alike)
+    def recase(schema, depth=0):
+        for ent in schema["fields"]:
+            if rng.random() < 0.2 and ent[0].islower():
+                ent[0] = rng.choice([ent[0].capitalize(), ent[0][:-1] + ent[0][-1].upper(), ent[0] + "Port"])
+            if ent[1]["s"] in ("sub", "ctype"):
+                recase(ent[1]["schema"], depth + 1)
+    recase(sk)
+    # a section may opt out of the environment mapping; that has no bearing on how its fields are named
+    for _, sf in sk["fields"]:
+        if sf["s"] == "sub" and rng.random() < 0.25:
+            sf["schema"]["env"] = False
     return sk
 
 
@@ -209,12 +221,34 @@ def gen_ops(rng, sk, tmp, n):
         if len(ignore) == 1 and rng.random() < 0.6:
             ignore = ignore[0]                 # a single name may be given as a plain string
         ops.append({"op": "cmdline", "argv": argv, "given": given, "ignore": ignore})
+        # between two command lines a whole section may be replaced, through its parent section (not through the root)
+        subs = [(p, sf) for p, sf in all_paths(sk) if sf["s"] == "sub" and "." in p]
+        if subs and rng.random() < 0.35:
+            p, sf = rng.choice(subs)
+            ops.append({"op": "setitem", "key": p, "value": {"a": "val", "py": C.gen_tree_for(rng, sf["schema"], tmp, 0.8, 0.0)}, "via": "attr"})
     return ops
 
 
 def oracle(res, case, sk, ops, impl, live, tmp, keypath):
     if "state" not in impl["build"]:
         return
+    if live is not None:
+        # at the end of the history every way of naming a field still reaches the same value
+        cfg = live[1]
+        for p, sf in all_paths(sk):
+            if sf["s"] in ("virtual", "method"):
+                continue
+            try:
+                chained = cfg
+                for q in p.split("."):
+                    chained = getattr(chained, q)
+                dotted = cfg[p]
+            except Exception:  # noqa
+                continue
+            if not ((chained is dotted) or (chained == dotted)):
+                res.violate("C16:dotted-vs-chained:after-history", "after a history of overrides and assignments dotted-path access and chained attribute access disagree",
+                            dict(case, path=p))
+                break
     prev = impl["build"]["state"]
     for n, (op, st) in enumerate(zip(ops, impl["steps"])):
         cur = st["state"]
